@@ -301,9 +301,14 @@ class Shaper(object):
             find_adequate_prefix_for_shapes_namespaces(self._namespaces_dict)
 
     def _launch_class_profiler(self, verbose=False):
-        if self._class_profiler is None:
-            self._class_profiler = self._build_class_profiler()
-        self._profile, self._class_counts, self._class_min_iris = self._class_profiler.profile_classes(verbose=verbose)
+        # A new profiler per run: one whose previous run failed half-way keeps partial counts
+        self._class_profiler = self._build_class_profiler()
+        try:
+            self._profile, self._class_counts, self._class_min_iris = self._class_profiler.profile_classes(verbose=verbose)
+        except BaseException:
+            # The profiler adapts the instances dict in place, so the dict cannot be reused after a failure
+            self._target_classes_dict = None
+            raise
 
     def _launch_class_shexer(self, acceptance_threshold, verbose=False):
         # A new ClassShexer per run: it accumulates shapes, so it cannot be re-entered with another threshold
@@ -313,8 +318,8 @@ class Shaper(object):
         self._shape_list_threshold = acceptance_threshold
 
     def _launch_instance_tracker(self, verbose=False):
-        if self._instance_tracker is None:
-            self._instance_tracker = self._build_instance_tracker()
+        # A new tracker per run: one whose previous run failed half-way keeps the instances already seen
+        self._instance_tracker = self._build_instance_tracker()
         self._target_classes_dict = self._instance_tracker.track_instances(verbose=verbose)
 
     def _build_class_shexer(self):
